@@ -75,6 +75,37 @@ class TRec(TTuple):
         return self.name
 
 
+class TOpaque(Ty):
+    """a container of another crate whose meaning is given in RsSem.lean (`BitSet`, `VecMap`)"""
+
+    def __init__(self, name):
+        self.name = name
+
+    def lean(self):
+        return OPAQUE[self.name]["lean"]
+
+    def __eq__(self, o):
+        return isinstance(o, TOpaque) and o.name == self.name
+
+    def __repr__(self):
+        return self.name
+
+
+# methods: lean function, argument types, return type (None = unit), mut = the receiver is replaced by the result
+OPAQUE = {
+    "BitSet": dict(lean="Rs.BitSet", new="Rs.BitSet.empty", methods={
+        "insert": dict(lean="Rs.BitSet.insert", args=["usize"], ret=None, mut=True),
+        "extend": dict(lean="Rs.BitSet.extend", args=["Vec<usize>"], ret=None, mut=True),
+        "contains": dict(lean="Rs.BitSet.contains", args=["usize"], ret="bool"),
+        "len": dict(lean="Rs.BitSet.len", args=[], ret="usize"),
+        "iter": dict(lean="Rs.BitSet.toList", args=[], ret="Vec<usize>")}),
+    "VecMap": dict(lean="Rs.VecMap", new="Rs.VecMap.empty", methods={
+        "insert": dict(lean="Rs.VecMap.insert", args=["usize", "u8"], ret=None, mut=True),
+        "get": dict(lean="Rs.VecMap.get", args=["usize"], ret="Option<u8>"),
+        "len": dict(lean="Rs.VecMap.len", args=[], ret="usize")}),
+}
+
+
 def proj(text, i, n):
     """i-th component of an n-tuple (right-nested pairs)"""
     if n == 1:
@@ -272,7 +303,7 @@ class ParserX(rs.Parser):
 
 # ================================================================================================== translator
 
-MUTATORS = ("push", "push_back", "pop_front", "pop_back", "next", "next_back", "clear")
+MUTATORS = ("push", "push_back", "pop_front", "pop_back", "next", "next_back", "clear", "insert", "extend")
 ADAPTERS = ("iter", "into_iter", "by_ref", "enumerate", "rev", "take", "skip", "step_by", "iter_mut", "borrow", "borrow_mut")
 
 
@@ -352,6 +383,8 @@ class FnTranslatorX(rs.FnTranslator):
                 return TSeq(self.ty(t.args[0]))
             if nm == "Iter" and len(t.args) == 1:
                 return TIter(self.ty(t.args[0]))
+            if nm in OPAQUE and nm not in self.aliases:
+                return TOpaque(nm)
             if nm in self.structs and not t.args:
                 return TRec(nm, [(f, self.ty_of_text(ft)) for f, ft in self.structs[nm]])
         return rs.FnTranslator.ty(self, t)
@@ -584,6 +617,8 @@ class FnTranslatorX(rs.FnTranslator):
             if lt != rt or key not in self.absfns:
                 self.err("`%s` on %r and %r (declare the abstract function `%s` in the spec)" % (e.op, lt, rt, key), e)
             return "%s %s %s" % (self.absfns[key]["lean"], atom(l), atom(r)), lt
+        if k == "un" and e.op == "*" and strip(e.e).kind in ("mcall", "index", "field"):
+            return self.expr(e.e, code, expected)
         if k == "var" and e.name == "None":
             if not isinstance(expected, TOpt):
                 self.err("`None` where the expected type is not known to be an `Option`", e)
@@ -634,6 +669,8 @@ class FnTranslatorX(rs.FnTranslator):
             if lt != rt or not isinstance(lt, TInt) or lt.signed:
                 self.err("`%s` on %r and %r" % (path, lt, rt), e)
             return "Nat.%s %s %s" % (e.path[-1], atom(l), atom(r)), lt
+        if len(e.path) == 2 and e.path[1] == "new" and e.path[0] in OPAQUE and not e.args:
+            return OPAQUE[e.path[0]]["new"], TOpaque(e.path[0])
         if path in ("VecDeque::new",) and not e.args:
             if not isinstance(expected, TSeq):
                 self.err("`%s()` without a declared element type" % path, e)
@@ -658,6 +695,40 @@ class FnTranslatorX(rs.FnTranslator):
                 return self.abs_call(key, e, code)
         if nm == "fold" and len(e.args) == 2 and e.args[1].kind == "closure":
             return self.fold(e, code, expected)
+        if nm == "all" and len(e.args) == 1 and e.args[0].kind == "closure":
+            lst, elem_t, br = self.loop_source(e.recv, code, e)
+            f, rt = self.closure_fn(e.args[0], [elem_t], "all", TBool())
+            if not isinstance(rt, TBool):
+                self.err("`.all` closure of type %r" % (rt,), e)
+            t = self.tmp()
+            code.bind(t, ("call", "%s.allM %s" % (atom(lst), atom(f))))
+            return t, TBool()
+        if nm == "collect" and not e.args and self.is_iter_chain(e.recv):
+            lst, elem_t, br = self.loop_source(e.recv, code, e)
+            return lst, TSeq(elem_t)
+        if nm == "max" and not e.args and self.is_iter_chain(e.recv):
+            lst, elem_t, br = self.loop_source(e.recv, code, e)
+            if not isinstance(elem_t, TInt) or elem_t.signed:
+                self.err("`.max()` over %r" % (elem_t,), e)
+            return "%s.max?" % atom(lst), TOpt(elem_t)
+        if nm == "expect" and len(e.args) == 1 and e.args[0].kind == "str" or nm == "unwrap" and not e.args:
+            r, t = self.expr(e.recv, code)
+            if not isinstance(t, TOpt):
+                self.err("`.%s` on %r" % (nm, t), e)
+            tv = self.tmp()
+            code.bind(tv, ("call", "Rs.expect %s" % atom(r)))
+            return tv, t.elem
+        if nm == "map" and len(e.args) == 1 and e.args[0].kind == "closure" and not self.is_iter_chain(e.recv, strict=True):
+            r, t = self.expr(e.recv, code)
+            if not isinstance(t, TOpt):
+                self.err("`.map(closure)` on %r (only iterators and `Option`s)" % (t,), e)
+            f, rt = self.closure_fn(e.args[0], [t.elem], "map", None)
+            tv = self.tmp()
+            code.bind(tv, ("call", "Rs.optMapM %s %s" % (atom(f), atom(r))))
+            return tv, TOpt(rt)
+        rt_ = self.peek_type(e.recv)
+        if isinstance(rt_, TOpaque):
+            return self.opaque_call(e, code)
         if nm == "is_empty" and not e.args:
             r, t = self.expr(e.recv, code)
             if not isinstance(t, TSeq):
@@ -727,6 +798,88 @@ class FnTranslatorX(rs.FnTranslator):
         t = self.tmp()
         code.bind(t, ("call", "%s.foldlM %s %s" % (atom(lst), atom(name + self.abs_args() + "".join(" " + v.lean for v in caps)), atom(init))))
         return t, acc_t
+
+    def peek_type(self, e):
+        """type of a simple receiver expression (variables, fields) without emitting code; None when not simple"""
+        x = strip(e)
+        if x.kind == "var" or (x.kind == "field" and (self.self_chain(x) is not None or strip(x.e).kind == "var")):
+            try:
+                saved = self.n_tmp
+                _, t = self.expr(x, Code())
+                self.n_tmp = saved
+                return t
+            except Unsupported:
+                return None
+        return None
+
+    def is_iter_chain(self, e, strict=False):
+        """`e` is an iterator expression (`x.iter()`, `x.into_iter()`, adapters on one)"""
+        x = strip(e)
+        while x.kind == "mcall" and x.name in ("map", "enumerate", "rev", "take", "skip", "step_by"):
+            x = strip(x.recv)
+            strict = False
+        if x.kind == "mcall" and x.name in ("iter", "into_iter") and not x.args:
+            return True
+        return False
+
+    def opaque_call(self, e, code):
+        r, t = self.expr(e.recv, code)
+        m = OPAQUE[t.name]["methods"].get(e.name)
+        if m is None:
+            self.err("method `.%s` of `%s` has no meaning in RsSem.lean" % (e.name, t.name), e)
+        if len(m["args"]) != len(e.args):
+            self.err("`%s::%s` called with %d arguments" % (t.name, e.name, len(e.args)), e)
+        parts = []
+        for a, at in zip(e.args, m["args"]):
+            want = self.ty_of_text(at)
+            if isinstance(want, TSeq) and self.is_iter_chain(a):
+                sv, st_, _ = self.loop_source(a, code, e)
+                sv, st = sv, TSeq(st_)
+            else:
+                sv, st = self.expr(a, code, want)
+            if st != want:
+                self.err("argument of `%s::%s` has type %r, expected %r" % (t.name, e.name, st, want), a)
+            parts.append(atom(sv))
+        txt = "%s %s%s" % (m["lean"], atom(r), "".join(" " + p for p in parts))
+        if m.get("mut"):
+            v = self.container(e.recv, e)
+            if v is None:
+                self.err("`.%s` on a `%s` that is not held in a variable or field" % (e.name, t.name), e)
+            code.let(v.lean, txt)
+            return "()", TUnit()
+        return txt, self.ty_of_text(m["ret"])
+
+    def closure_fn(self, cl, param_tys, kind, expected):
+        """a closure as a named helper `<fn>_<kind><k>`: (lean text of the partially applied helper, result type)"""
+        key = "n_cl_" + kind
+        setattr(self, key, getattr(self, key, 0) + 1)
+        name = "%s_%s%d" % (self.lean_fn, kind, getattr(self, key))
+        if len(cl.params) != len(param_tys):
+            self.err("closure with %d parameters" % len(cl.params), cl)
+        names = []
+        for q in cl.params:
+            names += self.pat_names_x(q)
+        if jumps(cl.body) or self.assigned(cl.body):
+            self.err("closure that assigns outer variables or jumps", cl)
+        caps = self.captured(cl.body, [], names)
+        saved_scopes, saved_tail = self.scopes, self.tail_expected
+        self.scopes = [dict((v.rust, Var(v.rust, v.lean, v.ty)) for v in caps), {}]
+        self.loop_depth += 1
+        try:
+            pats = [self.lean_pat(q, qt, cl) for q, qt in zip(cl.params, param_tys)]
+            body = Code()
+            r, rt = self.block_value(cl.body, body, expected)
+            body.final = ("pure", r)
+        finally:
+            self.scopes, self.tail_expected = saved_scopes, saved_tail
+            self.loop_depth -= 1
+        lines = ["/-- the closure of `.%s(…)` (line %d) -/" % (kind, self.src.line_of(cl.pos)),
+                 "%s : %s → Res %s" % (self.helper_header(name, caps), " → ".join(paren_ty(t.lean()) for t in param_tys),
+                                      paren_ty(rt.lean())),
+                 "  | %s => do" % ", ".join(pats)]
+        rs.emit_code(body, 4, lines)
+        self.helpers.append("\n".join(lines))
+        return name + self.abs_args() + "".join(" " + v.lean for v in caps), rt
 
     def abs_call(self, key, e, code):
         f = self.absfns[key]
@@ -943,6 +1096,9 @@ class FnTranslatorX(rs.FnTranslator):
             if recv.kind == "var" and recv.name == "self":
                 self.self_call(e, code, None)
                 return
+            if isinstance(self.peek_type(e.recv), TOpaque):
+                self.opaque_call(e, code)
+                return
             if e.name in ("push", "push_back") and len(e.args) == 1 and recv.kind == "index" and recv.idx.kind != "range":
                 root = self._lhs_root(recv.base)
                 v = self.lookup(root, e)
@@ -998,7 +1154,18 @@ class FnTranslatorX(rs.FnTranslator):
         """→ (lean list text, element type, by_ref variable or None).  Adapters are applied on the list."""
         it = strip(it)
         if it.kind == "mcall" and not it.args and it.name in ("iter", "into_iter"):
+            if isinstance(self.peek_type(it.recv), TOpaque):
+                l, t = self.opaque_call(N("mcall", it.pos, recv=it.recv, name="iter", args=[]), code)
+                return l, t.elem, None
             return self.loop_source(it.recv, code, s)
+        if it.kind == "mcall" and len(it.args) == 1 and it.name == "map" and it.args[0].kind == "closure":
+            l, t, br = self.loop_source(it.recv, code, s)
+            if br is not None:
+                self.err("`.by_ref().map(…)`", it)
+            f, rt = self.closure_fn(it.args[0], [t], "map", None)
+            tv = self.tmp()
+            code.bind(tv, ("call", "%s.mapM %s" % (atom(l), atom(f))))
+            return tv, rt, None
         if it.kind == "mcall" and not it.args and it.name == "by_ref":
             v = self.container(it.recv, it)
             if v is None or not isinstance(v.ty, TSeq):
